@@ -160,6 +160,11 @@ pub fn feed(case: &StreamCase, cuts: &[usize]) -> (Vec<Res>, Vec<Res>) {
                 }
                 Ok(Ok(StunPacketDecodedValue::MoreBytesNeeded((d2, n)))) => {
                     real.push(Res::More(n));
+                    // the first divergence is what gets reported; past it the model's bookkeeping (`have`)
+                    // no longer describes the real decoder, so stop here instead of feeding on
+                    if real.last() != exp.last() {
+                        break 'outer;
+                    }
                     have += data.len();
                     dec = Some(d2);
                     break;
